@@ -50,7 +50,7 @@ func serviceInfoTy() *wg.Ty {
 func decodeAt(kind int, t *wg.Ty, input []byte) int {
 	switch kind {
 	case k8Msg:
-		return classOf(func() error { var m net.Message; return m.Read(bytes.NewReader(input)) })
+		return classOf(func() error { var m net.Message; return m.Read(mkReader(input)) })
 	case k8Value:
 		return newValue(input).class
 	case k8SigRead:
@@ -62,13 +62,13 @@ func decodeAt(kind int, t *wg.Ty, input []byte) int {
 		}
 		return reflDec(rt, t, input).class
 	case k8MetaObject:
-		return classOf(func() error { _, err := object.ReadMetaObject(bytes.NewReader(input)); return err })
+		return classOf(func() error { _, err := object.ReadMetaObject(mkReader(input)); return err })
 	case k8ObjectRef:
-		return classOf(func() error { _, err := object.ReadObjectReference(bytes.NewReader(input)); return err })
+		return classOf(func() error { _, err := object.ReadObjectReference(mkReader(input)); return err })
 	case k8ServiceInfo:
-		return classOf(func() error { _, err := services.VerifReadServiceInfo(bytes.NewReader(input)); return err })
+		return classOf(func() error { _, err := services.VerifReadServiceInfo(mkReader(input)); return err })
 	case k8CapMap:
-		return classOf(func() error { _, err := bus.ReadCapabilityMap(bytes.NewReader(input)); return err })
+		return classOf(func() error { _, err := bus.ReadCapabilityMap(mkReader(input)); return err })
 	}
 	return ocPanic
 }
@@ -155,6 +155,15 @@ func runC08(res *hx.Result, rng *hx.Rng, tier string, outdir string) {
 			c := decodeAt(kind, t, enc[:k])
 			cls.WriteByte(byte('0' + c))
 			cuts++
+			// the same cut through the other reader kinds the code meets in practice
+			for rk := 1; rk <= 2 && c == ocErr; rk++ {
+				readerKind = rk
+				if c2 := decodeAt(kind, t, enc[:k]); c2 != ocErr {
+					c = c2
+					res.Dist(fmt.Sprintf("accepted-only-through-reader-kind-%d", rk))
+				}
+				readerKind = 0
+			}
 			if c != ocErr {
 				detail := fmt.Sprintf("%s signature %s: the first %d of %d bytes of %x are decoded with class %d (0 = accepted, 2 = panic)", k8Names[kind], t.Sig(), k, len(enc), enc, c)
 				switch {
@@ -175,6 +184,31 @@ func runC08(res *hx.Result, rng *hx.Rng, tier string, outdir string) {
 		res.Sample(fmt.Sprintf("%s %s %x -> classes per cut %s", k8Names[kind], t.Sig(), enc, cls.String()))
 		cs.Add("cases", fmt.Sprintf("{| p_kind := %d; p_ty := %s; p_enc := %s; p_cuts := %s |}", kind, t.Coq(), hx.Hex(enc), hx.Str(cls.String())),
 			fmt.Sprintf("%s sig=%s enc=%x", k8Names[kind], t.Sig(), enc))
+	}
+	// frames with payloads of tens of KiB and more (too large for the in-Coq evaluation):
+	// implementation-side oracle on a sample of cut positions, through every reader kind
+	for _, n := range []int{65535, 65536, 65537, 70000, 300000, 1 << 20} {
+		h := genHeader(rng)
+		p := rng.Bytes(n)
+		m := net.NewMessage(h, p)
+		var b bytes.Buffer
+		m.Write(&b)
+		enc := b.Bytes()
+		for rk := 0; rk <= 1; rk++ {
+			readerKind = rk
+			if c := decodeAt(k8Msg, nil, enc); c != ocOK {
+				res.Fail("full-encoding-refused", fmt.Sprintf("message with a %d-byte payload is refused (class %d, reader kind %d)", n, c, rk))
+			}
+			for _, k := range []int{27, 28, 29, 28 + n/2, 28 + n - 1, 28 + rng.Intn(n)} {
+				cuts++
+				if c := decodeAt(k8Msg, nil, enc[:k]); c != ocErr {
+					res.Fail("prefix-accepted", fmt.Sprintf("message with a %d-byte payload: the first %d of %d bytes are decoded with class %d (reader kind %d)", n, k, len(enc), c, rk))
+				}
+			}
+		}
+		readerKind = 0
+		res.Count(fmt.Sprintf("bigmsg%d", n), true)
+		res.Dist("decoder:message-large-payload")
 	}
 	res.Distribution["cut-positions-decoded"] = cuts
 	cs.Flush()
